@@ -349,6 +349,24 @@ theorem completed_entries_frozen (o : Ops) (s s' : MSt) (evs : List MEv)
     simp only [this, Bool.false_eq_true, ↓reduceIte] at hp
     exact ⟨pre, hp⟩
 
+/-- **An entry's end tag always closes the entry** — whatever is on the element stack (stale frames of content elements included: `_start_content` pushes two
+elements and `_end_content` pops one), whether or not `pop("item")` finds its element: after `</item>` / `</entry>` outside a text construct the machine is not in an entry any
+more, so `completed_entries_frozen` applies to everything that follows — the children of a following entry whose start tag was destroyed cannot be written into this one. -/
+theorem entry_end_closes_entry (o : Ops) (s : MSt) (tag : Str) (hnc : s.c.incontent = false)
+    (hh : (handlerName s.c tag == S "item" || handlerName s.c tag == S "entry") = true) :
+    ∃ s', mstep o s (.stop tag) = .ok s' ∧ s'.c.inentry = false ∧ s'.c.entries.length = s.c.entries.length := by
+  have hne : (handlerName s.c tag == S "channel" || handlerName s.c tag == S "feed") = false := by
+    rcases Bool.or_eq_true _ _ |>.mp hh with h | h
+    · have := beq_iff_eq.mp h; rw [this]; decide +kernel
+    · have := beq_iff_eq.mp h; rw [this]; decide +kernel
+  have hck : contentEndKey (handlerName s.c tag) = none ∧ extKind (handlerName s.c tag) = none := by
+    rcases Bool.or_eq_true _ _ |>.mp hh with h | h
+    · have := beq_iff_eq.mp h; rw [this]; exact ⟨content_structural.2.2.2.1, by decide +kernel⟩
+    · have := beq_iff_eq.mp h; rw [this]; exact ⟨content_structural.2.2.2.2, by decide +kernel⟩
+  refine ⟨⟨endFinish o { (pop o s (S "item")).c with inentry := false, hasContent := false }, (pop o s (S "item")).stack⟩, ?_, rfl, ?_⟩
+  · simp only [mstep, endTag, hnc, Bool.false_eq_true, ↓reduceIte, hck.1, hck.2, Option.isSome_none, Bool.or_self, endTag0, hne, hh]
+  · exact (pop_frame4 o s (S "item")).2.2.2.2.2.2.2.2.2.2.1
+
 /-- in particular the NUMBER of entries never decreases -/
 theorem entries_never_lost (o : Ops) (s s' : MSt) (evs : List MEv)
     (hdone : s.c.inentry = false) (hrun : mrun o s evs = .ok s') : s.c.entries.length ≤ s'.c.entries.length := by
